@@ -50,13 +50,24 @@ def cases(tier, seed):
         if not picks:
             picks = [datetime(2025, 3, 30, 1)]
         out.append({"zone": z, "transitions": [t.isoformat() for t in picks], "seed": seed, "tier": tier, "idx": len(out)})
+    # the countries of the library's catalogue, against the civil time of each country (the harness' own table of IANA zones)
+    for cname, z in CATALOGUE.items():
+        tz = E.pytz.timezone(z)
+        recent = [t for t in transitions(tz) if 2024 <= t.year <= 2026] or [datetime(2025, 3, 30, 1)]
+        out.append({"zone": z, "catalogue_country": cname, "transitions": [t.isoformat() for t in recent[:6]], "seed": seed, "tier": tier, "idx": len(out)})
     return out
+
+
+CATALOGUE = {"FRANCE": "Europe/Paris", "GERMANY": "Europe/Berlin", "FINLAND": "Europe/Helsinki", "AUSTRIA": "Europe/Vienna", "POLAND": "Europe/Warsaw",
+             "NORWAY": "Europe/Oslo", "HUNGARY": "Europe/Budapest", "UNITED_KINGDOM": "Europe/London", "BELGIUM": "Europe/Brussels", "ITALY": "Europe/Rome",
+             "ROMANIA": "Europe/Bucharest", "MALAYSIA": "Asia/Kuala_Lumpur", "MOROCCO": "Africa/Casablanca", "TUNISIA": "Africa/Tunis",
+             "ALGERIA": "Africa/Algiers", "SENEGAL": "Africa/Dakar"}
 
 
 def requirements(tier):
     return {"min_counters": {"conversions_checked": 2000 if tier == "quick" else 30000, "pattern_level_checked": 2000, "ambiguous_hours": 200,
                              "nonexistent_hours": 200, "ends_near_transition": 500, "non_whole_hour_offset_zone": 100},
-            "required_classes": ["gap", "overlap", "half_hour_zone", "ends_inside_gap_neighbourhood", "long_series"]}
+            "required_classes": ["gap", "overlap", "half_hour_zone", "ends_inside_gap_neighbourhood", "long_series", "catalogue_country", "live_country_moves"]}
 
 
 def classify(tz, t, pytz):
@@ -141,6 +152,12 @@ def run_case(case):
     job = E.Job.from_defaults("j", server=srv)
     uj = E.UsageJourney("uj", [E.UsageJourneyStep("s", E.SourceValue(1 * E.u.min), [job])])
     country = E.Country("c", "C", E.SourceValue(100 * E.u.g / E.u.kWh), E.SourceObject(tz))
+    if case.get("catalogue_country"):
+        # the country comes from the library's catalogue; the oracle keeps using the harness' own zone for that country
+        from efootprint.constants.countries import Countries
+        country = getattr(Countries, case["catalogue_country"])()
+        tzobj = country.timezone
+        classes.add("catalogue_country"); C["catalogue_countries"] = 1
     net = E.Network.wifi_network(); dev = E.Device.laptop()
     off_now = tz.utcoffset(datetime(2025, 1, 15)) if hasattr(tz, "utcoffset") else timedelta(0)
     if off_now is not None and (off_now.total_seconds() % 3600) != 0:
@@ -204,6 +221,32 @@ def run_case(case):
             digests.append((z, start.isoformat(), n))
             if len(V) > 3:
                 break
+    if not V and not case.get("catalogue_country"):
+        # a pattern of a computed system moved from country to country (A -> B -> C -> A): after every move its UTC starts are the local
+        # ones shifted with the zone of the country it is in NOW
+        try:
+            tiso = case["transitions"][0]
+            start = datetime.fromisoformat(tiso).replace(minute=0, second=0, microsecond=0) - timedelta(hours=rnd.choice([3, 30]))
+            n = rnd.choice([12, 60])
+            values = [float(i + 1) + 0.001 * ((i * 7919) % 997) for i in range(n)]
+            upm = E.UsagePattern("upm", uj, [dev], net, country, E.create_source_hourly_values_from_list(list(values), start))
+            sysm = E.System("sys", [upm])
+            others = [zz for zz in ("Asia/Tokyo", "Europe/London", "Asia/Kolkata", "America/New_York", "Europe/Paris") if zz != z]
+            seq = rnd.sample(others, 2) + [z]
+            for zz in seq:
+                tz2 = pytz.timezone(zz)
+                upm.country = E.Country("c_" + zz, "C", E.SourceValue(100 * E.u.g / E.u.kWh), E.SourceObject(tz2))
+                r = upm.utc_hourly_usage_journey_starts
+                ridx = [t.to_pydatetime().replace(tzinfo=None) for t in r.value.index]
+                rvals = [float(x) for x in r.value["value"].values._data]
+                viol, cnt = oracle(tz2, start, values, ridx, rvals, pytz, [t for t in (getattr(tz2, "_utc_transition_times", None) or []) if t.year > 1])
+                C["moves_checked"] = C.get("moves_checked", 0) + 1
+                if viol:
+                    viol.update(zone=zz, local_start=start.isoformat(), hours=n, level="live pattern after country moves " + " -> ".join([z] + seq[:seq.index(zz) + 1]))
+                    V.append(viol); break
+            classes.add("live_country_moves")
+        except Exception as e:
+            V.append({"kind": f"moving a live pattern between countries raised {type(e).__name__}: {str(e)[:160]}", "zone": z})
     return {"counters": C, "classes": sorted(classes), "violations": V[:4], "nontrivial": nt,
             "digest": hashlib.md5(repr(digests).encode()).hexdigest()[:16],
             "sample": {"zone": z, "series": digests[:4], "counters": C} if case["idx"] % 13 == 0 else None}
